@@ -28,6 +28,9 @@ CHECKS = {
  "C07": ("exploration", "exhaustive enumeration under catch_unwind: the C02 sequence exploration, a hostile-item sweep over every corpus receiver, and every built-in conversion target x a menu of meta items",
          "odometer", "no entry point may unwind: all sequences of the struct corpus, ~500 hostile inputs per receiver (non-meta bodies, wrong forms, 40-digit numbers, depth-64 nesting), 130+ built-in targets x 64 items in two contexts",
          "panic=unwind; allocation failure / stack overflow would abort the process and surface as a machinery error", "DESIGN.md §4 C07"),
+ "C09": ("model_checking", "bounded-exhaustive exploration of every input form on compiled derived enums, reference interpreter stepped alongside",
+         "odometer", "every generated enum (1-3 variants over 10 variant kinds x container configurations) x bare word, every candidate name in string form, non-string values, every nested-item sequence up to 2/3 in list form, and the absent form; selected variant/payload or error leaves must equal the interpreter's",
+         "case rules re-implemented from their names; bounds: <= 3 variants, nested sequences <= 2 (quick) / 3 (thorough)", "DESIGN.md §4 C09"),
 }
 PENDING = {}
 props = [json.loads(l) for l in open(os.path.join(V, "properties.jsonl"))]
